@@ -27,8 +27,8 @@ def run(ctx):
     cov["trusted_base"] = core.TRUSTED_BASE + ["virtual TBB shim (harness/vtbb)", "oneTBB 2021.8 runtime for the sampled real schedules"]
     src = [os.path.join(core.ROOT, "harness", "c04_determ.cpp")]
     exes = {}
+    libs.build_consistent(("ser", "vtbb", "par"))
     for v in ("ser", "vtbb", "par"):
-        libs.build(v)
         exes[v] = core.compile_harness("c04_" + v, src, libs.cxx_flags(v) + (["-I" + libs.VT] if v == "vtbb" else []), out_name="c04_" + v, libs=libs.link_flags(v))
     progs = list(range(0, 9)) + ([9, 10] if ctx.tier == "quick" else list(range(9, 30)))
     nsched = 3 if ctx.tier == "quick" else 10
